@@ -20,7 +20,7 @@ from ..model import dims as M
 from ..model import sat as SAT
 
 LEVEL = "exploration"
-TECHNIQUE = "runtime monitoring: order-free satisfiability oracle + metamorphic agreement across permutations, passing styles, typecheckers and decorator spellings on generated decorated functions; decoy Unions whose first member binds then fails; re-entrant arm (checked calls made from flatten functions / shape properties while another check runs must behave as when made directly)"
+TECHNIQUE = "runtime monitoring: order-free satisfiability oracle + metamorphic agreement across permutations, passing styles, typecheckers and decorator spellings on generated decorated functions; decoy Unions whose first member binds then fails; re-entrant arm (checked calls made from flatten functions / shape properties while another check runs must behave as when made directly); short-lived values in one scope; two-level decorated calls made from flatten functions / shape properties"
 LEVEL_TEXT = (
     "Held on every generated signature x argument tuple x configuration explored (thousands of signatures, ~20-30 "
     "configurations each). The accept/reject verdict is compared with an order-free existence-of-assignment oracle, so "
